@@ -514,6 +514,8 @@ class Textgrid:
     def renameTier(self, oldName: str, newName: str) -> None:
         oldTier = self.getTier(oldName)
         tierIndex = self.tierNames.index(oldName)
+        if newName != oldName and newName in self.tierNames:
+            raise errors.TierNameExistsError("Tier name already in tier")
         self.removeTier(oldName)
         self.addTier(oldTier.new(newName, oldTier.entries), tierIndex)
 
